@@ -337,8 +337,9 @@ func (g *gen) reqIds(prod bool) map[string]uint64 {
 		for j := range k {
 			k[j] = safeKeyAlphabet[g.r.Intn(len(safeKeyAlphabet))]
 		}
-		if !prod && g.r.Chance(1, 6) {
-			k = append(k, byte(g.r.Pick('"', '\\', '<', 0x7f, 0x01, 0xc3, 0xe2)))
+		if !prod && g.r.Chance(1, 4) {
+			k = append(k, [][]byte{{'"'}, {'\\'}, {'<'}, {0x7f}, {0x01}, {0xc3}, {0xe2}, {0xc3, 0xa9}, {0xe2, 0x82, 0xac}, {0xf0, 0x9f, 0x98, 0x80},
+				{0xe2, 0x80, 0xa8}, {'\n'}, {0xef, 0xbf, 0xbd}, {0xed, 0xa0, 0x80}, {'&', '>'}, {0x08, 0x0c}}[g.r.Intn(16)]...)
 		}
 		m[string(k)] = g.u64()
 	}
@@ -759,7 +760,10 @@ func (g *gen) mutTime(b []byte) []byte {
 	return c
 }
 
-var reqIdVariants = []string{"null", "{}", "", "{\"a\":1}", "{\"b\":2,\"a\":1}", "{\"a\":1,\"a\":2}", "{\"a\":18446744073709551615}",
+var reqIdVariants = []string{"{\"\\ud83d\\ude00\":1}", "{\"\\ud800\":2}", "{\"\\udc00\\ud800\":2}", "{\"\\u2028\":3}", "{\"\xc3\xa9\":4}",
+	"{\"\xff\":5,\"\\ufffd\":6}", "{\"a\\/b\":7}", "{\"a\\'b\":8}", "{\"a\x01b\":9}", "{\"\\u00e9\":1,\"\xc3\xa9\":2}", "{\"\\n\\t\\\"\":1}",
+	"{\"\\uD83D\\uDE00x\":1}", "{\"\\ud83dx\":1}", "{\"\\u12\":1}", "{\"\xe2\x82\xac\":1}", "{\"\xe2\x82\":1}", "{\"\xed\xa0\x80\":1}", "{\"\xf0\x9f\x98\x80\":1}",
+	"null", "{}", "", "{\"a\":1}", "{\"b\":2,\"a\":1}", "{\"a\":1,\"a\":2}", "{\"a\":18446744073709551615}",
 	"{\"a\":18446744073709551616}", "{\"a\":01}", "{\"a\":-1}", "{\"a\":1.5}", "{\"a\":\"x\"}", "{\"a\":1} ", " {\"a\":1}", "[1]", "{\"a\":1",
 	"{\"\":0}", "{\"a\\u0041\":1}", "{\"<\":1}", "nul", "{\"a\":1,}", "{\"a\":0,\"b\":00}", "7", "\"s\"", "{\"a\":null}", "{\"k\":1,\"K\":2}"}
 
@@ -980,6 +984,43 @@ func corr(a map[string]string) {
 				return "err"
 			}
 			return hx.Hex(b[1 : len(b)-1])
+		})
+	}
+
+	// JSON strings on their own: json.Marshal(string) and json.Unmarshal into a string
+	for i := 0; i < 250*scale; i++ {
+		var sb []byte
+		for n := g.r.Intn(5); n >= 0; n-- {
+			sb = append(sb, [][]byte{{'a'}, {'"'}, {'\\'}, {'/'}, {'<', '>'}, {'&'}, {0x7f}, {0x00}, {0x1f}, {'\n'}, {'\t'}, {0x08}, {0x0c}, {'\r'}, {0xc3, 0xa9},
+				{0xe2, 0x82, 0xac}, {0xf0, 0x9f, 0x98, 0x80}, {0xe2, 0x80, 0xa8}, {0xe2, 0x80, 0xa9}, {0xef, 0xbf, 0xbd}, {0xed, 0xa0, 0x80}, {0xc0, 0x80},
+				{0xf4, 0x90, 0x80, 0x80}, {0xff}, {0xc3}, {0xe2, 0x82}, g.r.Bytes(1), g.r.Bytes(2)}[g.r.Intn(28)]...)
+		}
+		out.Do("jq "+hx.Hex(sb), func() string {
+			b, err := json.Marshal(string(sb))
+			if err != nil {
+				return "err"
+			}
+			return hx.Hex(b)
+		})
+		lit := []byte{'"'}
+		for n := g.r.Intn(5); n >= 0; n-- {
+			lit = append(lit, [][]byte{[]byte("a"), []byte("\\n"), []byte("\\\""), []byte("\\\\"), []byte("\\/"), []byte("\\b\\f\\r\\t"), []byte("\\u0041"), []byte("\\u00e9"),
+				[]byte("\\ud83d\\ude00"), []byte("\\ud83d"), []byte("\\ude00"), []byte("\\ud83d\\u0041"), []byte("\\uD83D\\uDE00"), []byte("\\u2028"), []byte("\\u0000"),
+				[]byte("\\'"), []byte("\\x"), []byte("\\u12g4"), []byte("\\u12"), {0xc3, 0xa9}, {0xff}, {0xed, 0xa0, 0x80}, {0x01}, {0xf0, 0x9f, 0x98, 0x80}, {'\\'},
+				g.r.Bytes(1)}[g.r.Intn(26)]...)
+		}
+		if g.r.Chance(9, 10) {
+			lit = append(lit, '"')
+		}
+		if g.r.Chance(1, 15) {
+			lit = append(lit, 'x')
+		}
+		out.Do("ju "+hx.Hex(lit), func() string {
+			var sv string
+			if err := json.Unmarshal(lit, &sv); err != nil {
+				return "err"
+			}
+			return "ok " + hx.Hex([]byte(sv))
 		})
 	}
 
